@@ -18,6 +18,10 @@ HasHole(e) == CASE e.op = "hole" -> TRUE [] e.op = "eq" -> FALSE [] e.op = "not"
                 [] OTHER -> \E i \in DOMAIN e.es : HasHole(e.es[i])
 HasEmptyOp(e) == CASE e.op \in {"hole", "eq"} -> FALSE [] e.op = "not" -> HasEmptyOp(e.e)
                    [] OTHER -> e.es = <<>> \/ \E i \in DOMAIN e.es : HasEmptyOp(e.es[i])
+\* a comparison that still carries a placeholder number (nobody bound it): [op |-> "eq", col, val, ph] with ph > 0
+RECURSIVE HasPlaceholder(_)
+HasPlaceholder(e) == CASE e.op = "eq" -> ("ph" \in DOMAIN e /\ e.ph > 0) [] e.op = "hole" -> FALSE [] e.op = "not" -> HasPlaceholder(e.e)
+                       [] OTHER -> \E i \in DOMAIN e.es : HasPlaceholder(e.es[i])
 \* columns tested by the complete leaves
 RECURSIVE LeafCols(_)
 LeafCols(e) == CASE e.op = "eq" -> {e.col} [] e.op = "hole" -> {} [] e.op = "not" -> LeafCols(e.e)
@@ -28,6 +32,7 @@ LeafCols(e) == CASE e.op = "eq" -> {e.col} [] e.op = "hole" -> {} [] e.op = "not
 QOutcome(rows, q) ==
   IF HasHole(q.e) THEN [kind |-> "err"]
   ELSE IF ~(LeafCols(q.e) \subseteq Cols(rows)) \/ ~(Range(q.gb) \subseteq Cols(rows)) THEN [kind |-> "err"]
+  ELSE IF HasPlaceholder(q.e) THEN [kind |-> "anyorerr"]          \* answered somehow, or rejected: never a crash
   ELSE IF HasEmptyOp(q.e) THEN [kind |-> "any"]
   ELSE [kind |-> "res", res |-> ExecSpec(rows, q.e, q.gb)]
 
@@ -36,16 +41,18 @@ VARIABLES proc,     \* "up" | "crashed"
 rvars == <<proc, reply>>
 RInit == proc = "up" /\ reply = [kind |-> "init"]
 
-\* the reply the specification prescribes for a batch
-BatchReply(rows, batch) ==
-  LET outs == [i \in DOMAIN batch |-> QOutcome(rows, batch[i])] IN
-  IF \E i \in DOMAIN outs : outs[i].kind = "err" THEN [kind |-> "rpcerror", results |-> <<>>]
-  ELSE [kind |-> "response",
-        results |-> [i \in DOMAIN batch |-> [id |-> IF batch[i].id = 0 THEN i ELSE batch[i].id, out |-> outs[i]]]]
+\* the replies the specification allows for a batch
+BatchReplies(rows, batch) ==
+  LET outs == [i \in DOMAIN batch |-> QOutcome(rows, batch[i])]
+      err  == [kind |-> "rpcerror", results |-> <<>>]
+      resp == [kind |-> "response",
+               results |-> [i \in DOMAIN batch |-> [id |-> IF batch[i].id = 0 THEN i ELSE batch[i].id, out |-> outs[i]]]]
+  IN IF \E i \in DOMAIN outs : outs[i].kind = "err" THEN {err}
+     ELSE IF \E i \in DOMAIN outs : outs[i].kind = "anyorerr" THEN {resp, err} ELSE {resp}
 Request(rows, batch) ==
   /\ proc = "up"
   /\ IF NoNilCheck /\ \E i \in DOMAIN batch : HasHole(batch[i].e)
      THEN proc' = "crashed" /\ reply' = [kind |-> "dead"]
-     ELSE proc' = proc /\ reply' = BatchReply(rows, batch)
+     ELSE proc' = proc /\ reply' \in BatchReplies(rows, batch)
 NeverCrashes == proc = "up"
 =============================================================================
